@@ -5,6 +5,7 @@ len(), hash() or iteration to a node, so any entry in TRAPLOG was caused by the 
 TRAPLOG = []
 
 ARCHETYPES = ("eq", "ne", "falsy", "len0", "unhash", "raise", "all")
+TUPLES = ("tuple0", "tuple1", "tuple2")   # NodeMixin only
 
 
 class TrapError(Exception):
@@ -78,6 +79,19 @@ def install(classes, hooks):
         d = dict(d)
         d["__slots__"] = ("name",)
         classes["trap:light:" + arch] = type("TrapLight_" + arch, (LightNodeMixin,), d)
+    # node classes that ARE tuples (record-like nodes: namedtuple + NodeMixin).  No special method is overridden, so nothing
+    # is recorded; what differs from the plain twin is what the interpreter itself does with a tuple: "%s" % node unpacks
+    # it, isinstance(node, (list, tuple)) is true, it is iterable, has a length (0 = falsy) and compares by value.
+    # (LightNodeMixin has non-empty __slots__ and cannot be combined with tuple.)
+    import collections
+
+    for width in (0, 1, 2):
+        base = collections.namedtuple("Rec%d" % width, ["f%d" % i for i in range(width)])
+        d = dict(hooks)
+        d["__new__"] = (lambda b, w: lambda cls, *a: b.__new__(cls, *(["rec"] * w)))(base, width)
+        d["__init__"] = init
+        d["__repr__"] = rep
+        classes["trap:tuple%d" % width] = type("TupleNode%d" % width, (base, NodeMixin), d)
     # plain named twins used as the differential reference
 
     classes["named"] = type("Named", (NodeMixin,), dict(hooks, __init__=init, __repr__=rep))
